@@ -9,6 +9,7 @@
 
 #include <tao/pegtl.hpp>
 #include <tao/pegtl/contrib/input_with_depth.hpp>
+#include <tao/pegtl/contrib/parse_tree.hpp>
 #if defined( SIM_COVERAGE_LAZY )
 #include <tao/pegtl/contrib/coverage.hpp>
 #endif
@@ -225,6 +226,32 @@ namespace sim
       }
    };
 
+   // ------------------------------------------------------------ parse tree selector (specialised in grammar.hpp)
+   template< typename Rule >
+   struct sim_selector : std::false_type
+   {};
+
+   // 0 store_content, 2 remove_content, 3 fold_one, 4 discard_empty, -1 not selected
+   template< typename Rule >
+   constexpr int selector_kind()
+   {
+      if constexpr( !pegtl::internal::enable_control< Rule > || !sim_selector< Rule >::value ) {
+         return -1;
+      }
+      else if constexpr( std::is_base_of_v< pegtl::parse_tree::remove_content, sim_selector< Rule > > ) {
+         return 2;
+      }
+      else if constexpr( std::is_base_of_v< pegtl::parse_tree::fold_one, sim_selector< Rule > > ) {
+         return 3;
+      }
+      else if constexpr( std::is_base_of_v< pegtl::parse_tree::discard_empty, sim_selector< Rule > > ) {
+         return 4;
+      }
+      else {
+         return 0;
+      }
+   }
+
    // ------------------------------------------------------------ rule ids
    template< typename Rule >
    inline constexpr bool is_dispatch = false;  // kid / mkid / atoms: invisible plumbing
@@ -232,7 +259,7 @@ namespace sim
    template< typename Rule >
    std::uint32_t rid()
    {
-      static const std::uint32_t id = register_rule( pegtl::demangle< Rule >(), pegtl::normal< Rule >::enable && !is_dispatch< Rule > );
+      static const std::uint32_t id = register_rule( pegtl::demangle< Rule >(), pegtl::normal< Rule >::enable && !is_dispatch< Rule >, selector_kind< Rule >() );
       return id;
    }
 
